@@ -149,6 +149,15 @@ Proof.
   generalize (/ (6 * (h1 + h0))) (/ (6 * h0)) (/ (6 * h0 * (h0 + h1))). intros a b d. ring.
 Qed.
 
+Lemma simpson_unfold3 x0 x1 x2 xr y0 y1 y2 yr :
+  simpson (x0 :: x1 :: x2 :: xr) (y0 :: y1 :: y2 :: yr) =
+  simpson_basic x0 x1 x2 y0 y1 y2 +
+  match xr, yr with
+  | [x3], [y3] => simpson_last (x2 - x1) (x3 - x2) y1 y2 y3
+  | _, _ => simpson (x2 :: xr) (y2 :: yr)
+  end.
+Proof. reflexivity. Qed.
+
 Lemma simpson_scale c : forall n x y, (length x <= n)%nat ->
   simpson x (map (fun v => v * c) y) == c * simpson x y.
 Proof.
@@ -157,11 +166,11 @@ Proof.
   - destruct x as [ | x0 [ | x1 [ | x2 xr]]]; destruct y as [ | y0 [ | y1 [ | y2 yr]]];
       try (simpl; ring).
     (* at least three points *)
-    assert (IHt : simpson (x2 :: xr) (map (fun v => v * c) (y2 :: yr)) == c * simpson (x2 :: xr) (y2 :: yr))
-        by (apply IH; simpl in *; lia).
-    destruct xr as [ | x3 [ | x4 xr]]; destruct yr as [ | y3 [ | y4 yr]];
-        cbn [simpson map] in *;
-        rewrite ?simpson_basic_scale, ?simpson_last_scale, ?IHt; ring.
+    assert (IHt : simpson (x2 :: xr) (map (fun v => v * c) (y2 :: yr)) == c * simpson (x2 :: xr) (y2 :: yr)).
+    { apply IH. simpl in Hn. simpl. lia. }
+    cbn [map] in IHt |- *. rewrite !simpson_unfold3.
+    destruct xr as [ | x3 [ | x4 xr]]; destruct yr as [ | y3 [ | y4 yr]]; cbn [map] in IHt |- *;
+      rewrite ?simpson_basic_scale, ?simpson_last_scale; try rewrite IHt; ring.
 Qed.
 
 Lemma normalised_lemma x e : ~ simpson x e == 0 ->
@@ -232,12 +241,13 @@ Lemma bsearch_in fuel tol target : forall x1 y1 x2 y2,
   lo <= fst (bsearch func fuel tol target x1 y1 x2 y2) /\
   fst (bsearch func fuel tol target x1 y1 x2 y2) <= hi.
 Proof.
-  induction fuel as [ | f IH]; intros x1 y1 x2 y2 H1 H2; simpl; [exact H1 | ].
+  induction fuel as [ | f IH]; intros x1 y1 x2 y2 H1 H2; [exact H1 | ].
   pose proof (mid_in x1 x2 H1 H2) as Hm.
-  destruct (negb (Qle_bool tol (Qabs (func ((1 # 2) * (x1 + x2)) - target)))); [exact Hm | ].
+  cbn [bsearch]. cbv zeta.
+  match goal with |- context [if ?c then _ else _] => destruct c end; [exact Hm | ].
   destruct f as [ | f']; [exact Hm | ].
-  destruct (between y1 target (func ((1 # 2) * (x1 + x2))) || between (func ((1 # 2) * (x1 + x2))) target y1);
-    simpl; apply IH; assumption.
+  match goal with |- context [if ?c then _ else _] => destruct c end;
+    cbn [fst]; apply IH; assumption.
 Qed.
 
 Lemma find_edges_in tol t : t <> [] -> xin t ->
